@@ -10,6 +10,9 @@ def build(run):
         run.verify_c([c], files=FILES)
     c, reg = c13.tetrahedron_dos_safety(run.sink)
     run.verify_c([c], files=FILES, registry=reg)
+    c, reg = c13.tetrahedra_frequencies_safety()
+    run.verify_c([c], files=FILES, registry=reg)
+    run.verify_c([c13.derivative_dynmat_safety()], files=FILES)
     # "same result as the reference semantics": the functional contracts of the kernels (proved in the
     # per-property checks) are part of this property too
     from contracts import c_svecs as SV
